@@ -236,7 +236,7 @@ PROPS = {
                          "the executable RFC 9380 specification.",
              rule="one minimal program, three hashing functions",
              trusted=["Go linker and package initialisation order (modelled)"]),
-    "C18": P("exploration", [("rnd", 400, 20000)], ["RND"], rule=RULE + "; a case is a scripted entropy stream (blocks 0, n, >= n, short reads, failure point) and a read chunk size",
+    "C18": P("proof", [("rnd", 400, 20000)], ["RND"], rule=RULE + "; a case is a scripted entropy stream (blocks 0, n, >= n, short reads, failure point) and a read chunk size",
              trusted=["crypto/rand.Reader and io.ReadFull (the stream model: ReadFull assembles 32 bytes or fails)"]),
     "C19": P("proof", [], None, special=[special_trace],
              rule="recorded function-entry traces of Multiply on an instrumented scratch copy; distinct = distinct scalars",
